@@ -263,7 +263,7 @@ def epStep (cfg : List (UInt16 × Nat)) (st : EpSt) (idx : Nat) (ev : TEv) : EpS
   | .win cwnd flight _ burst _ =>
     -- correspondence (not an oracle): the window the code computes from its own variables, with the
     -- advertised window the model believes the code holds (the last one received)
-    let eff := min (min (flight + burst) cwnd) st.rwnd
+    let eff := if st.rwnd = 0 ∧ flight = 0 then 1 else min (min (flight + burst) cwnd) st.rwnd   -- (zero-window probe)
     { st with out := st.out ++ [s!"w{eff}"] }
   | .new available _ _ _ =>
     let r := popSizes st.outQ available 0
